@@ -3,10 +3,12 @@
  * non-zero vector, and the original is left without repetition.  Plain assertions; bounded. */
 double IN_ox, IN_oy, IN_rot, IN_mag; bool IN_xr; uint64_t IN_cols, IN_rows;
 static bool c11a_same(double a, double b) { union { double d; uint64_t u; } p, q; p.d = a; q.d = b; return p.u == q.u; }
+static Property c11a_prop, c11a_propcopy;
+#ifdef VF_ENTRY_h_ref_apply_repetition
 static Reference c11a_ref;
 static Cell c11a_cell;
-static Property c11a_prop, c11a_propcopy;
 static Array_Reference_p c11a_result;
+#endif
 #ifdef VF_ENTRY_h_ref_apply_repetition
 void h_ref_apply_repetition(void) {
     VF_IN(u64, IN_noff); VF_IN_ARR(IN_offx); VF_IN_ARR(IN_offy);
@@ -34,7 +36,7 @@ void h_ref_apply_repetition(void) {
     VF_ASSUME(c11a_ref.repetition.offsets.items != NULL);
     for (int k = 0; k < 2; k++) { c11a_ref.repetition.offsets.items[k].x = IN_offx[k + 1]; c11a_ref.repetition.offsets.items[k].y = IN_offy[k + 1]; }
 #endif
-    c11a_ref.properties = &c11a_prop; G_propcopy = &c11a_propcopy;
+    c11a_ref.properties = NULL; G_propcopy = &c11a_propcopy;
     memset(&c11a_result, 0, sizeof c11a_result);
     Reference *this_ = &c11a_ref;
     Reference__apply_repetition(this_, &c11a_result);
@@ -47,7 +49,95 @@ void h_ref_apply_repetition(void) {
         { double ex = VF_FADD(IN_ox, IN_offx[k + 1]), ey = VF_FADD(IN_oy, IN_offy[k + 1]);
           VF_ASSERT(c11a_same(c->origin.x, ex) && c11a_same(c->origin.y, ey), "copy k is translated by offset k+1, nothing else"); }
         VF_ASSERT(c->type == ReferenceType_Cell && c->cell == &c11a_cell && c11a_same(c->rotation, IN_rot) && c11a_same(c->magnification, IN_mag) && c->x_reflection == IN_xr, "copies are otherwise identical");
-        VF_ASSERT(c->properties == G_propcopy, "copies carry a copy of the properties");
+        VF_ASSERT(c->properties == NULL, "copies carry a copy of the properties");
+    }
+    VF_REACHED();
+}
+#endif
+
+/* common input set-up for the label / polygon variants */
+#if defined(VF_ENTRY_h_label_apply_repetition) || defined(VF_ENTRY_h_poly_apply_repetition)
+static void c11a_inputs(Repetition *rep) {
+    VF_IN(u64, IN_noff); VF_IN_ARR(IN_offx); VF_IN_ARR(IN_offy);
+    VF_IN(double, IN_ox); VF_IN(double, IN_oy); VF_IN(double, IN_rot); VF_IN(double, IN_mag); VF_IN(bool, IN_xr);
+    VF_IN(u64, IN_cols); VF_IN(u64, IN_rows);
+#ifdef VF_EMPTY_REPETITION
+    VF_ASSUME(IN_noff == 0);
+    rep->type = RepetitionType_Rectangular; rep->columns = 0; rep->rows = IN_rows;
+#else
+    VF_ASSUME(IN_noff >= 1 && IN_noff <= 3);
+    VF_ASSUME(IN_offx[0] == 0.0 && IN_offy[0] == 0.0);
+#ifdef VF_CBMC
+    rep->type = RepetitionType_Rectangular; rep->columns = IN_cols; rep->rows = IN_rows;
+#else
+    rep->type = RepetitionType_Explicit;
+    rep->offsets.count = IN_noff - 1; rep->offsets.capacity = 2;
+    rep->offsets.items = (Vec2 *)malloc(sizeof(Vec2) * 2);
+    for (int k = 0; k < 2; k++) { rep->offsets.items[k].x = IN_offx[k + 1]; rep->offsets.items[k].y = IN_offy[k + 1]; }
+#endif
+#endif
+    G_propcopy = &c11a_propcopy;
+}
+#endif
+#ifdef VF_ENTRY_h_label_apply_repetition
+static Label c11a_label;
+static Array_Label_p c11a_lresult;
+static char c11a_text[2] = "t";
+uint64_t IN_tag;
+void h_label_apply_repetition(void) {
+    memset(&c11a_label, 0, sizeof c11a_label);
+    c11a_inputs(&c11a_label.repetition);
+    VF_IN(u64, IN_tag);
+    c11a_label.tag = IN_tag; c11a_label.text = c11a_text;
+    c11a_label.origin.x = IN_ox; c11a_label.origin.y = IN_oy; c11a_label.rotation = IN_rot; c11a_label.magnification = IN_mag; c11a_label.x_reflection = IN_xr;
+    c11a_label.properties = NULL;
+    memset(&c11a_lresult, 0, sizeof c11a_lresult);
+    Label *this_ = &c11a_label;
+    Label__apply_repetition(this_, &c11a_lresult);
+    VF_ASSERT(c11a_lresult.count == (IN_noff ? IN_noff - 1 : 0), "one copy per non-zero vector");
+    VF_ASSERT(c11a_label.repetition.type == RepetitionType_None, "the original is left without repetition");
+    VF_ASSERT(c11a_same(c11a_label.origin.x, IN_ox) && c11a_same(c11a_label.origin.y, IN_oy) && c11a_label.text == c11a_text && c11a_label.tag == IN_tag, "the original is otherwise untouched");
+    for (int k = 0; k < 2; k++) if ((uint64_t)k + 1 < IN_noff && (uint64_t)k < c11a_lresult.count) {
+        Label *c = c11a_lresult.items[k];
+        VF_ASSERT(c != NULL && c != this_, "copies are separate objects");
+        { double ex = VF_FADD(IN_ox, IN_offx[k + 1]), ey = VF_FADD(IN_oy, IN_offy[k + 1]);
+          VF_ASSERT(c11a_same(c->origin.x, ex) && c11a_same(c->origin.y, ey), "copy k is translated by offset k+1, nothing else"); }
+        VF_ASSERT(c->tag == IN_tag && c->text != NULL && c->text != c11a_text && c->text[0] == 't' && c->text[1] == 0, "copies carry the same tag and their own copy of the text");
+        VF_ASSERT(c11a_same(c->rotation, IN_rot) && c11a_same(c->magnification, IN_mag) && c->x_reflection == IN_xr && c->properties == NULL, "copies are otherwise identical");
+    }
+    VF_REACHED();
+}
+#endif
+#ifdef VF_ENTRY_h_poly_apply_repetition
+static Polygon c11a_poly;
+static Array_Polygon_p c11a_presult;
+uint64_t IN_tag, IN_cnt;
+double IN_vx[2], IN_vy[2];
+void h_poly_apply_repetition(void) {
+    memset(&c11a_poly, 0, sizeof c11a_poly);
+    c11a_inputs(&c11a_poly.repetition);
+    VF_IN(u64, IN_tag); VF_IN(u64, IN_cnt); VF_IN_ARR(IN_vx); VF_IN_ARR(IN_vy);
+    VF_ASSUME(IN_cnt <= 2);
+    c11a_poly.tag = IN_tag;
+    c11a_poly.point_array.count = IN_cnt; c11a_poly.point_array.capacity = 2;
+    c11a_poly.point_array.items = (Vec2 *)malloc(sizeof(Vec2) * 2);
+    VF_ASSUME(c11a_poly.point_array.items != NULL);
+    for (int k = 0; k < 2; k++) { c11a_poly.point_array.items[k].x = IN_vx[k]; c11a_poly.point_array.items[k].y = IN_vy[k]; }
+    c11a_poly.properties = NULL;
+    memset(&c11a_presult, 0, sizeof c11a_presult);
+    Polygon *this_ = &c11a_poly;
+    Polygon__apply_repetition(this_, &c11a_presult);
+    VF_ASSERT(c11a_presult.count == (IN_noff ? IN_noff - 1 : 0), "one copy per non-zero vector");
+    VF_ASSERT(c11a_poly.repetition.type == RepetitionType_None && c11a_poly.point_array.count == IN_cnt && c11a_poly.tag == IN_tag, "the original is left without repetition and otherwise untouched");
+    for (int k = 0; k < 2; k++) if ((uint64_t)k + 1 < IN_noff && (uint64_t)k < c11a_presult.count) {
+        Polygon *c = c11a_presult.items[k];
+        VF_ASSERT(c != NULL && c != this_ && c->point_array.count == IN_cnt && (IN_cnt == 0 || c->point_array.items != c11a_poly.point_array.items), "copies are separate objects with their own vertices");
+        for (int j = 0; j < 2; j++) if ((uint64_t)j < IN_cnt) {
+            double ex = VF_FADD(IN_vx[j], IN_offx[k + 1]), ey = VF_FADD(IN_vy[j], IN_offy[k + 1]);
+            VF_ASSERT(c11a_same(c->point_array.items[j].x, ex) && c11a_same(c->point_array.items[j].y, ey), "every vertex of copy k is translated by offset k+1");
+            VF_ASSERT(c11a_same(c11a_poly.point_array.items[j].x, IN_vx[j]) && c11a_same(c11a_poly.point_array.items[j].y, IN_vy[j]), "the original's vertices are untouched");
+        }
+        VF_ASSERT(c->tag == IN_tag && c->properties == NULL, "copies carry the tag and a copy of the properties");
     }
     VF_REACHED();
 }
